@@ -67,7 +67,60 @@ FAULTS = {
     "r-ifc": (["N9% = -1"], [], "PRINT SPACE$(N9%)", []),
     "r-ifc-mid": (["N9% = 0"], [], 'PRINT MID$("abc", N9%)', []),
 }
-HEADER_FAULTS = {k for k, v in FAULTS.items() if v[1] or v[3]}
+
+# host statements x fault expressions: the fault sits in an expression at every kind of syntactic position
+# host -> (lines before, statement template, lines after)
+HOSTS = {
+    "h-assign": ([], "V% = {e}", []),
+    "h-assign-nested": ([], "V% = 2 * (3 + {e})", []),
+    "h-print": ([], 'PRINT "a"; {e}; "b"', []),
+    "h-print-comma": ([], "PRINT 1, {e}", []),
+    "h-subarg": ([], "ZS9 {e}", []),
+    "h-funarg": ([], "V% = ZF9%({e})", []),
+    "h-subscript-r": ([], "V% = AR8%({e})", []),
+    "h-subscript-w": ([], "AR8%({e}) = 1", []),
+    "h-builtin": ([], "V% = LEN(STR$({e}))", []),
+    "h-unary": ([], "V% = -({e})", []),
+    "h-not": ([], "V% = NOT ({e})", []),
+    "h-ifline": ([], "IF {e} = 1 THEN V% = 1", []),
+    "h-dim": ([], "DIM DA9%(1 TO {e})", []),
+    "h-if": ([], "IF {e} = 1 THEN", ["END IF"]),
+    "h-while": ([], "WHILE {e} = 1", ["WEND"]),
+    "h-for-lo": ([], "FOR I9% = {e} TO 2", ["NEXT"]),
+    "h-for-hi": ([], "FOR I9% = 1 TO {e}", ["NEXT"]),
+    "h-for-step": ([], "FOR I9% = 1 TO 2 STEP {e}", ["NEXT"]),
+    "h-select": ([], "SELECT CASE {e}", ["CASE 1", "END SELECT"]),
+    "h-dowhile": ([], "DO WHILE {e} = 1", ["LOOP"]),
+    "h-dountil": ([], "DO UNTIL {e} = 1", ["LOOP"]),
+    "h-case": (["SELECT CASE 1"], "CASE {e}", ["END SELECT"]),
+    "h-case-range": (["SELECT CASE 1"], "CASE {e} TO 9", ["END SELECT"]),
+    "h-case-is": (["SELECT CASE 1"], "CASE IS > {e}", ["END SELECT"]),
+    "h-elseif": (["IF 1 = 0 THEN"], "ELSEIF {e} = 1 THEN", ["END IF"]),
+    "h-until": (["DO"], "LOOP UNTIL {e} = 1", []),
+    "h-loopwhile": (["DO"], "LOOP WHILE {e} = 1", []),
+}
+HOST_SETUP = ["DIM AR8%(1 TO 3)"]
+# expression -> (setup, text)
+EXPRS = {
+    "e-div": ([], "1 / Z%"),
+    "e-mod": ([], "5 MOD Z%"),
+    "e-ovf": (["M9% = 32767"], "M9% + 1"),
+    "e-sub": (["DIM AR9%(1 TO 3)", "K9% = 4"], "AR9%(K9%)"),
+    "e-ifc": (["N9% = -1"], "LEN(SPACE$(N9%))"),
+    "e-str": ([], '(1 + "a")'),
+    "e-argc": ([], "ZF9%(1, 2)"),
+    "e-argc-b": ([], 'LEN("a", "b")'),
+}
+
+
+def fault_parts(name):
+    """-> (setup, lines before, statement, lines after)"""
+    if name in FAULTS:
+        return FAULTS[name]
+    h, e = name.split("|")
+    before, tmpl, after = HOSTS[h]
+    esetup, etext = EXPRS[e]
+    return (HOST_SETUP + esetup, before, tmpl.replace("{e}", etext), after)
 
 BLOCKS = {
     "if": (["IF 1 = 1 THEN"], ["END IF"]),
@@ -116,7 +169,7 @@ def wrap(doc, depth, kinds, body, dbase):
 def build(case):
     """-> dict(text, stmt=[a, b], term=c, sites=[[a, b], ...] innermost first)"""
     fault = case["fault"]
-    setup, before_lines, stmt, after_lines = FAULTS[fault]
+    setup, before_lines, stmt, after_lines = fault_parts(fault)
     chain = case["chain"]
     nest = list(case["nest"])
     oneline = bool(nest) and nest[-1] == "oneline"
